@@ -79,7 +79,8 @@ def _seqstr(seq):
 
 def _matstr(md):
     lab = "" if md.get("label") is None else str(md["label"])
-    return "%s%s{%s}" % (lab, "@F" if md.get("ns") else "", ",".join("%d=%s" % (i, _seqstr(s)) for i, s in md["rows"]))
+    return "%s%s{%s}%s" % (lab, "@F" if md.get("ns") else "", ",".join("%d=%s" % (i, _seqstr(s)) for i, s in md["rows"]),
+                           "".join("[%d is %d]" % (a, b) for a, b in md.get("share", ())))
 
 
 def _opstr(op):
@@ -106,8 +107,9 @@ def _opstr(op):
 def job_key(job):
     if "widths" in job:
         return "%s|concatenate_from_streams|%s|n=%d|widths=%s|given_ns=%s" % (job["type"], job["schema"], job["n"], job["widths"], bool(job.get("given_ns")))
-    return "%s|n=%d|%s|%s" % (job["type"], job["n"], ";".join(_matstr(m) for m in job["mats"]),
-                              ";".join(_opstr(o) for o in job["ops"]))
+    return "%s|n=%d|%s%s|%s" % (job["type"], job["n"], ";".join(_matstr(m) for m in job["mats"]),
+                                "|removed from the namespace: %s" % job["ns_removed"] if job.get("ns_removed") else "",
+                                ";".join(_opstr(o) for o in job["ops"]))
 
 
 # ----------------------------------------------------------------------------- environment
@@ -126,6 +128,11 @@ def build_env(job):
     e.mats, e.model = [], []
     for md in job["mats"]:
         e.add(e.make(md), md.get("ns", 0))
+    for i in job.get("ns_removed", ()):
+        # a taxon that has rows is removed from the shared namespace afterwards: the rows are still rows of their matrices, and the row operations
+        # still name rows by their taxon
+        e.nss[0].remove_taxon(e.ns_taxa[0][i])
+    e.ns_members = [list(ns._taxa) for ns in e.nss]   # (ns_taxa keeps naming the taxa by their original position)
     return e
 
 
@@ -134,6 +141,12 @@ def _env_make(e, md):
     m = e.cls(taxon_namespace=ns, label=md.get("label"))
     for i, seq in md["rows"]:
         m[ns._taxa[i]] = e.cells(m, seq)
+    for dst, src in md.get("share", ()):
+        # two rows of the matrix are ONE sequence object (m[t2] = m[t1]): legal, and every statement about rows still holds row by row
+        m[ns._taxa[dst]] = m[ns._taxa[src]]
+        if not hasattr(e, "shared_by_construction"):
+            e.shared_by_construction = set()
+        e.shared_by_construction.add(id(m[ns._taxa[src]]))
     return m
 
 
@@ -198,9 +211,10 @@ def check_unchanged(e, skip=()):
         elif CM.raw_subsets(m) != md["subsets"]:
             bad.append("matrix %d: character subsets changed" % k)
     for j, ns in enumerate(e.nss):
-        if len(ns._taxa) != len(e.ns_taxa[j]) or any(a is not b for a, b in zip(ns._taxa, e.ns_taxa[j])):
+        members = getattr(e, "ns_members", e.ns_taxa)[j]
+        if len(ns._taxa) != len(members) or any(a is not b for a, b in zip(ns._taxa, members)):
             bad.append("namespace %d membership changed" % j)
-        elif [t.label for t in ns._taxa] != NSLABELS[:len(ns._taxa)]:
+        elif [t.label for t in e.ns_taxa[j]] != NSLABELS[:len(e.ns_taxa[j])]:
             bad.append("namespace %d labels changed" % j)
     return bad
 
@@ -411,9 +425,12 @@ def run_op(e, op, tl):
 def _shared_rows(e):
     """no sequence OBJECT is listed under two taxa or in two matrices: otherwise an in-place change of one row shows in another"""
     seen = {}
+    given = getattr(e, "shared_by_construction", set())
     for i, m in enumerate(e.mats):
         for tx, seq in m._taxon_sequence_map.items():
             k = id(seq)
+            if k in given:
+                continue   # the job itself put this object under two rows
             if k in seen and seen[k] != (i, tx.label):
                 return "matrix %d row %r and matrix %d row %r are one and the same sequence object" % (seen[k][0], seen[k][1], i, tx.label)
             seen[k] = (i, tx.label)
@@ -576,6 +593,15 @@ def jobs_fill(tier):
                 out.append(("fill-pack@shapes", job, ragged))
             job = {"type": tp, "n": 3, "mats": [md], "ops": [{"op": "fill_taxa", "m": 0}]}
             out.append(("fill-pack@shapes", job, len(md["rows"]) < 3))
+        # one sequence object under two rows, shorter than the third row
+        md = mat(tp, [2, 2, 4], 6)
+        md["rows"][1][1] = md["rows"][0][1]
+        md["share"] = [[1, 0]]
+        for o in ("fill", "pack"):
+            for size in (None, 4, 6):
+                for app in (True, False):
+                    job = {"type": tp, "n": 3, "mats": [md], "ops": [{"op": o, "m": 0, "value": val, "size": size, "append": app}]}
+                    out.append(("fill-pack@shapes", job, True))
     return out
 
 
@@ -605,6 +631,13 @@ def jobs_rowops(tier):
             for opd in _rowops():
                 job = {"type": tp, "n": n, "mats": [mat(tp, pa, 1), mat(tp, (3, 3, None), 2, ns=1)], "ops": [dict(opd, m=0, other=1)]}
                 out.append(("rowops@foreign-namespace", job, True))
+        if tp in ("dna", "continuous"):
+            # a taxon with rows in both matrices (or in one of them) has been removed from the namespace they share
+            for pa, pb in (((2, 2, 3), (3, 3, 2)), ((2, None, 3), (3, 2, 2)), ((2, 3, 3), (3, None, 2))):
+                for opd in _rowops():
+                    op = dict(opd, m=0, other=1)
+                    job = {"type": tp, "n": n, "mats": [mat(tp, pa, 1), mat(tp, pb, 2)], "ns_removed": [1], "ops": [op, {"op": "probe", "after": op["op"]}]}
+                    out.append(("rowops@pairs", job, True))
     return out
 
 
